@@ -861,6 +861,26 @@ class Interp:
             return EnumV("Result", {"Ok": (T, (UNIT,))}) if name in ("write", "writeln") else UNIT
         if name == "format":
             return OPQ
+        if name == "matches" and e.get("args") and len(e["args"]) == 2:
+            v = self.eval(e["args"][0], scope, frame, g)
+            if isinstance(v, LazyV):
+                v = self.force(v)
+
+            def to_pat(x):
+                k = x.get("k")
+                if k == "Call" and x["func"]["k"] == "Path":
+                    return {"k": "TupleStruct", "path": x["func"]["segs"], "elems": [to_pat(a) for a in x["args"]]}
+                if k == "Path":
+                    if len(x["segs"]) == 1 and x["segs"][0]["name"] == "_":
+                        return {"k": "Wild"}
+                    return {"k": "Path", "path": x["segs"]}
+                if k in ("Infer", "Unsupported"):
+                    return {"k": "Wild"}
+                if k == "Lit":
+                    return {"k": "Lit", "lit": x["lit"]}
+                raise Unsupported("matches! pattern " + str(k))
+            m = self.bind(to_pat(e["args"][1]), self.deref(v), Scope(scope), g)
+            return mkbool(m)
         raise Unsupported("macro " + name)
 
     # ---- loops
@@ -1076,6 +1096,12 @@ class Interp:
             return OptV(T, self.deref(args[0]))     # Result modelled as Option: values are bounded by the universe
         if tyname == "Unification" and name == "new" and ("Unification", "new") in self.p.methods:
             return self.call_fn(self.p.methods[("Unification", "new")], g, [])
+        if tyname in ("Rc", "Box", "Arc") and name == "new":
+            return args[0]            # value semantics: sharing / identity of the allocation is not modelled
+        if tyname in ("Rc", "Arc") and name in ("make_mut", "get_mut"):
+            return args[0]            # &mut Rc<T> -> &mut T: the same place under value semantics
+        if tyname in ("Rc", "Arc") and name in ("unwrap_or_clone", "try_unwrap"):
+            return self.deref(args[0])
         if tyname == "mem" and name in ("take", "replace"):
             # std::mem::take(&mut place) / std::mem::replace(&mut place, v): the old value moves out
             tgt = args[0]
@@ -1116,6 +1142,17 @@ class Interp:
         raise Unsupported("associated function %s::%s" % (tyname, name))
 
     def e_MethodCall(self, e, scope, frame, g, hint):
+        if e["method"] == "take" and not e["args"]:
+            # Option::take(): the place is emptied, the old value moves out
+            try:
+                pl = self.place(e["recv"], scope, frame, g)
+            except Unsupported:
+                pl = None
+            if pl is not None:
+                old = self.deref(pl.get())
+                if isinstance(old, OptV):
+                    pl.set(g, NONE)
+                    return OptV(old.some, old.val)
         recv = self.eval(e["recv"], scope, frame, g)
         return self.method(recv, e["method"], e["args"], scope, frame, g, hint, e)
 
